@@ -10,12 +10,14 @@ import (
 	"encoding/json"
 	"fmt"
 	"io"
+	"math"
 	"mime"
 	"mime/multipart"
 	"net/http/httptest"
 	"reflect"
 	"strings"
 	"sync"
+	"sync/atomic"
 	"testing/synctest"
 	"time"
 
@@ -59,7 +61,7 @@ func Run(rc *core.RunCtx) {
 	sse := t.Choose(2, "transport") == 0
 	// one run in eight: the custom scalar of me.blob panics while the payload is serialised, i.e.
 	// the panic escapes the response function into the transport
-	marshalPanic := t.Bool(1, 8, "marshal-panic")
+	marshalPanic := t.Bool(1, 8, "marshal-panic") || (rc.Property == "C04" && t.Bool(1, 2, "marshal-panic-c04"))
 	if marshalPanic {
 		plan.NullPM, plan.ErrPM = 0, 0
 		plan.Faults = map[string]refexec.Kind{"me.blob": refexec.KMarshalPanic}
@@ -104,6 +106,17 @@ func Run(rc *core.RunCtx) {
 		op = ops.Op{Query: `{ me { id blob } hello }`}
 		subscription, nEmit = false, 0
 	}
+	// one run in ten: user code attaches an extension value that encoding/json cannot encode, so
+	// the transport itself fails while it assembles the payload (first request only)
+	var badExtension atomic.Bool
+	if !marshalPanic && (t.Bool(1, 10, "bad-extension") || rc.Property == "C04") {
+		badExtension.Store(true)
+		marshalPanic = true // judged the same way: end-of-life checks, then a follow-up request
+		subscription, nEmit = false, 0
+		if sse {
+			op = ops.Corpus[t.Choose(len(ops.Corpus), "op")]
+		}
+	}
 	var interval time.Duration
 	srv := handler.New(u.ES)
 	if sse {
@@ -122,6 +135,10 @@ func Run(rc *core.RunCtx) {
 	var rmu sync.Mutex
 	srv.AroundResponses(func(ctx context.Context, next graphql.ResponseHandler) *graphql.Response {
 		r := next(ctx)
+		if r != nil && badExtension.Load() {
+			// a value encoding/json refuses: the transport cannot serialise this payload
+			r.Extensions = map[string]any{"bad": math.NaN()}
+		}
 		if r != nil {
 			b, _ := json.Marshal(r)
 			rmu.Lock()
@@ -323,6 +340,7 @@ func Run(rc *core.RunCtx) {
 	}
 	cancel()
 	out := wr.Bytes()
+	hdr := wr.Header()
 	rmu.Lock()
 	rec := append([]string(nil), recorded...)
 	rmu.Unlock()
@@ -335,8 +353,11 @@ func Run(rc *core.RunCtx) {
 	if marshalPanic {
 		w.Count("serialisation_panic_runs")
 	}
+	followUp := false
 	checkFraming := func() bool {
-		if ov := wr.Overlaps(); len(ov) > 0 {
+		// (overlapping writes are judged on the first response only, and not after a
+		// serialisation panic, which the statement does not cover)
+		if ov := wr.Overlaps(); len(ov) > 0 && !followUp {
 			rc.Fail("concurrent-write", map[bool]string{true: "sse", false: "multipart"}[sse], "%s\n%s", ov[0], desc())
 			return false
 		}
@@ -348,7 +369,7 @@ func Run(rc *core.RunCtx) {
 			return j.Canon()
 		}
 		if sse {
-			if wr.Header().Get("Content-Type") != "text/event-stream" {
+			if hdr.Get("Content-Type") != "text/event-stream" {
 				// errors before the stream starts are plain JSON responses: not a stream
 				rc.Res.Nontrivial = false
 				rc.Res.Sig = execsim.SigOf("sse-nostream", op.Query)
@@ -405,7 +426,7 @@ func Run(rc *core.RunCtx) {
 			}
 			w.CountN("sse_next_events", len(nexts))
 		} else {
-			mt, params, err := mime.ParseMediaType(wr.Header().Get("Content-Type"))
+			mt, params, err := mime.ParseMediaType(hdr.Get("Content-Type"))
 			if err != nil || mt != "multipart/mixed" {
 				// gate errors are answered with a plain JSON body
 				rc.Res.Nontrivial = false
@@ -528,6 +549,58 @@ func Run(rc *core.RunCtx) {
 	w.CountN("split_writes", splits)
 	if disconnected {
 		w.Count("disconnected_runs")
+	}
+	// the server keeps serving: a plain follow-up request over the same transport must be a
+	// well-framed stream of its own (nothing of the first response, however it ended, may show)
+	if rc.Property != "C05" && (marshalPanic || t.Bool(1, 4, "follow-up")) {
+		u.Park = false
+		plan.Faults = nil
+		badExtension.Store(false)
+		nBefore := len(rec)
+		body2, _ := json.Marshal(map[string]any{"query": `{ maybe }`})
+		ctx2, cancel2 := context.WithCancel(context.Background())
+		req2 := httptest.NewRequest("POST", "/query", bytes.NewReader(body2)).WithContext(ctx2)
+		req2.Header.Set("Content-Type", "application/json")
+		req2.Header.Set("Accept", req.Header.Get("Accept"))
+		rec2 := httptest.NewRecorder()
+		done2 := make(chan struct{})
+		go func() {
+			defer close(done2)
+			srv.ServeHTTP(rec2, req2)
+		}()
+		ended := false
+		for i := 0; i < 400 && !ended; i++ {
+			synctest.Wait()
+			select {
+			case <-done2:
+				ended = true
+				continue
+			default:
+			}
+			if w.NumParked() > 0 {
+				w.NextStep()
+				w.ReleaseNext(func(it *core.Item) any { return nil })
+			} else {
+				time.Sleep(time.Millisecond)
+			}
+		}
+		cancel2()
+		if !ended {
+			site, dump := core.StuckSite()
+			rc.Fail("stuck", site, "follow-up request on the same server did not finish\n%s", dump)
+			return
+		}
+		synctest.Wait()
+		rmu.Lock()
+		rec = append([]string(nil), recorded[nBefore:]...)
+		rmu.Unlock()
+		out, hdr, disconnected = rec2.Body.Bytes(), rec2.Header(), false
+		op = ops.Op{Query: "{ maybe } (follow-up after " + op.Query + ")"}
+		w.Count("follow_up_requests")
+		followUp = true
+		if !checkFraming() {
+			return
+		}
 	}
 	w.Count(map[bool]string{true: "sse_runs", false: "multipart_runs"}[sse])
 	rc.Res.Nontrivial = len(rec) >= 1
